@@ -5,6 +5,9 @@ import (
 	"encoding/json"
 	"fmt"
 	"io"
+	"strconv"
+	"unicode"
+	"unicode/utf16"
 
 	"github.com/buger/jsonparser"
 
@@ -159,7 +162,7 @@ func (d *Document) writeJSONValue(buf *bytes.Buffer, value Value) error {
 			// Remove the extra newline that Encode adds
 			buf.Truncate(buf.Len() - 1)
 		} else {
-			buf.Write(quotes.WrapBytes(d.StringValueContentBytes(value.Ref)))
+			writeJSONStringContent(buf, d.StringValueContentBytes(value.Ref))
 		}
 	case ValueKindList:
 		buf.WriteByte(literal.LBRACK_BYTE)
@@ -223,6 +226,49 @@ func (d *Document) writeJSONValue(buf *bytes.Buffer, value Value) error {
 		return fmt.Errorf("ValueToJSON: not implemented for kind: %s", value.Kind.String())
 	}
 	return nil
+}
+
+// writeJSONStringContent writes the content of a quoted GraphQL string as a JSON string. The
+// escape sequences of both grammars coincide except for the variable width \u{...} escape, and
+// GraphQL allows raw control characters (e.g. TAB) that JSON requires to be escaped.
+func writeJSONStringContent(buf *bytes.Buffer, content []byte) {
+	const hex = "0123456789abcdef"
+	buf.WriteByte('"')
+	for i := 0; i < len(content); i++ {
+		c := content[i]
+		switch {
+		case c == '\\' && i+1 < len(content) && content[i+1] == 'u' && i+2 < len(content) && content[i+2] == '{':
+			end := bytes.IndexByte(content[i:], '}')
+			if end == -1 {
+				buf.WriteByte(c)
+				continue
+			}
+			code, err := strconv.ParseUint(string(content[i+3:i+end]), 16, 32)
+			if err != nil || code > unicode.MaxRune {
+				buf.WriteByte(c)
+				continue
+			}
+			if r1, r2 := utf16.EncodeRune(rune(code)); r1 != unicode.ReplacementChar || r2 != unicode.ReplacementChar {
+				fmt.Fprintf(buf, "\\u%04x\\u%04x", r1, r2)
+			} else {
+				fmt.Fprintf(buf, "\\u%04x", code)
+			}
+			i += end
+		case c == '\\' && i+1 < len(content):
+			// any other escape sequence is the same in JSON; copy both bytes so that an escaped
+			// backslash is never taken for the start of an escape
+			buf.WriteByte(c)
+			buf.WriteByte(content[i+1])
+			i++
+		case c < 0x20:
+			buf.WriteString("\\u00")
+			buf.WriteByte(hex[c>>4])
+			buf.WriteByte(hex[c&0xf])
+		default:
+			buf.WriteByte(c)
+		}
+	}
+	buf.WriteByte('"')
 }
 
 // variableDefaultValueByName returns the default value of the variable definition with the given
